@@ -815,6 +815,9 @@ type checker struct {
 	res     *vlib.Result
 	m       *vlib.Model
 	repeats int
+	// lim: at most 2 shrunk reports per kind and 14 per kind-prefix class (own kinds / c08-), so that
+	// the own kinds can never use up the room of the c08- kinds or vice versa
+	lim *vlib.ClassLimiter
 }
 
 func traceLines(tr Trace) []string {
@@ -940,6 +943,9 @@ func (c *checker) report(sc Scenario, tr Trace, f Finding) {
 		return
 	}
 	c.res.Extra["reported-"+key] = true
+	if !c.lim.Admit("monitor", f.Kind) {
+		return
+	}
 	small := sc
 	small.Acts = vlib.Shrink(sc.Acts, func(as []Action) bool {
 		_, _, ok := c.failsWith(Scenario{N: sc.N, B: sc.B, Acts: as}, f.Kind, 40)
@@ -1071,7 +1077,7 @@ func TestVerif(t *testing.T) {
 		m = nil
 	}
 	defer m.Close()
-	c := &checker{t: t, res: res, m: m, repeats: 12}
+	c := &checker{t: t, res: res, m: m, repeats: 12, lim: vlib.NewClassLimiter(2, 14)}
 	if env.Thorough() || env.Deep {
 		c.repeats = 30
 	}
